@@ -147,14 +147,14 @@ def run_c07(ctx):
         raise Fatal("TLC emitted no C07 requests:\n%s" % r.out[-2000:])
     reqs.sort(key=lambda q: json.dumps(q, sort_keys=True))
     if quick:
-        # every request of the core set that can leave the trees on the pinned tree is kept; of the rest a seeded 60 %
+        # every request of the core set that can leave the trees on the pinned tree is kept; of the rest a seeded 40 %
         keep = []
         for i, q in enumerate(reqs):
             h = (i * 7919 + ctx.seed * 104729) % 10
-            if q["kind"] == "upfolder":      # transfers (3 s each, run in parallel): all one-segment items, half of the rest
-                top = q["item"]["count"] <= 1 or h < 5
+            if q["kind"] == "upfolder":      # transfers (3 s each, run in parallel): all one-segment items, 30 % of the rest
+                top = q["item"]["count"] <= 1 or h < 3
             else:
-                top = q["kind"] in ("rename", "acct") or q.get("path") == [-1] or h < 6
+                top = q["kind"] in ("rename", "acct") or q.get("path") == [-1] or h < 4
             if top:
                 keep.append(q)
         reqs = keep
